@@ -63,25 +63,32 @@ Definition obs_results (t : text) (r : list rresult * status) : sx :=
   | NoFuel => L [A (-3)]
   end.
 
-(* spec of one regex result from the oracle match: group positions through the plain slice *)
-Definition g0 (m : rmatch) : nat * nat := match m with Some g :: _ => g | _ => (0, 0) end.
-Definition spec_group (t hay : text) (sb : nat) (g : nat * nat) : sx :=
-  match char_index hay (fst g), char_index hay (snd g) with
-  | Some b, Some e => obs_sel t (sb + b, sb + e)
-  | _, _ => L [A (-2)]
+(* the hypotheses of C07_find_text_regex on the oracle input, checked on every case: groups on
+   character boundaries inside the whole match, matches of an expression in order *)
+Definition group_okb (hay : text) (g0 : nat * nat) (g : rgroup) : bool :=
+  match g with
+  | None => true
+  | Some g =>
+      match char_index hay (fst g), char_index hay (snd g) with
+      | Some a, Some b => (a <=? b) && (fst g0 <=? fst g) && (snd g <=? snd g0)
+      | _, _ => false
+      end
   end.
-Fixpoint spec_caps (i : nat) (gs : list rgroup) : list (nat * (nat * nat)) :=
-  match gs with
-  | [] => []
-  | None :: gs' => spec_caps (S i) gs'
-  | Some g :: gs' => (i, g) :: spec_caps (S i) gs'
+Definition match_okb (hay : text) (m : rmatch) : bool :=
+  match m with
+  | Some g :: rest => group_okb hay g (Some g) && forallb (group_okb hay g) rest
+  | _ => false
   end.
-Definition spec_result (t hay : text) (sb : nat) (es : list rexpr) (im : nat * rmatch) : sx :=
-  let caps := fst (nth (fst im) es (false, [])) in
-  if caps then
-    let cs := spec_caps 1 (tl (snd im)) in
-    L [of_nat (fst im); of_nats (map fst cs); L (map (fun c => spec_group t hay sb (snd c)) cs)]
-  else L [of_nat (fst im); L []; L [spec_group t hay sb (g0 (snd im))]].
+Fixpoint stream_okb (s : list rmatch) : bool :=
+  match s with
+  | [] => true
+  | x :: s' =>
+      (fst (g0 x) <=? snd (g0 x))
+      && forallb (fun y => (fst (g0 x) <? fst (g0 y)) && (snd (g0 x) <=? fst (g0 y))) s'
+      && stream_okb s'
+  end.
+Definition oracle_okb (hay : text) (es : list rexpr) : bool :=
+  forallb (fun e => stream_okb (snd e) && forallb (match_okb hay) (snd e)) es.
 
 Definition modes_ok (t : text) (x : sx) : bool :=
   negb (sx_nat (sx_nth 0 x) =? 0) || ((sx_nat (sx_nth 1 x) =? 0) && (sx_nat (sx_nth 2 x) =? length t)).
@@ -135,8 +142,12 @@ Definition run_C07 (x : sx) : sx :=
       let es := map expr_of (sx_list (sx_nth 4 x)) in
       let hay := sub t sb se in
       L [triple (obs_results t (find_text_regex t es allow sb se))
-              (L (map (spec_result t hay sb es)
-                      (merge_spec (fun m => fst (g0 m)) (fun m => snd (g0 m)) allow (map snd es)))) 0]
+                (if oracle_okb hay es then
+                   match regex_spec hay sb es allow with
+                   | Some l => L (map (obs_result t) l)
+                   | None => L [A (-2)]
+                   end
+                 else L [A (-9)]) 0]
   | 4 =>
       let interval := sx_nat (sx_nth 1 x) in
       let t := text_of (sx_nth 2 x) in
